@@ -492,3 +492,67 @@ func vh_C05_law_StreamSet() {
 		vfReach("end")
 	}
 }
+
+// AT SCALE: the same twin / law checks on CONCRETE operands whose length is taken from the code (vfProbe: just beyond
+// every integer constant the set functions compare a length or index with - a fast path, a pre-sizing limit, a batch
+// size in the CURRENT source), next to the small size 6. Elements come from a family of 5 values so that repeats and
+// common values are frequent. On a tree without such constants this is one small concrete run.
+func vh_C05_AtScale() {
+	vfSetMapOrder(2)
+	n := vfProbe("n", "Intersection|Union|Difference|Minus|IsSubset|IsSuperset|Distinct|Dedupe|SliceToMap|Exists", 6, 6)
+	long := make([]int, n)
+	for i := range long {
+		long[i] = (i * 3) % 5
+	}
+	short := []int{3, 1, 3, 9}
+	firstLong := vfChoose("long-operand-first", 2) == 0
+	a, b := long, short
+	if !firstLong {
+		a, b = short, long
+	}
+	ba, bb := c05Box(a), c05Box(b)
+	noDup := func(label string, l []int) {
+		seen := map[int]bool{}
+		ok := true
+		for _, v := range l {
+			if seen[v] {
+				ok = false
+			}
+			seen[v] = true
+		}
+		vfAssert(label+"-no-duplicates", ok)
+	}
+	member := func(l []int, v int) bool {
+		for _, x := range l {
+			if x == v {
+				return true
+			}
+		}
+		return false
+	}
+	ok := vfNoPanic("nopanic", func() {
+		gi, gu, gm, gd := Intersection(a, b), Union(a, b), Minus(a, b), Distinct(a...)
+		c05SameList("intersection", gi, IntersectionForInterface(ba, bb))
+		c05SameList("minus", gm, MinusForInterface(ba, bb))
+		c05SameList("distinct", gd, DistinctForInterface(ba...))
+		vfAssert("issubset", IsSubset(a, b) == IsSubsetForInterface(ba, bb))
+		vfAssert("issuperset", IsSuperset(a, b) == IsSupersetForInterface(ba, bb))
+		noDup("intersection", gi)
+		noDup("union", gu)
+		// (Minus keeps the repeats of its first operand: not a set result)
+		noDup("distinct", gd)
+		for v := 0; v < 10; v++ {
+			inA, inB := member(a, v), member(b, v)
+			vfAssert("intersection-membership", member(gi, v) == (inA && inB))
+			vfAssert("union-membership", member(gu, v) == (inA || inB))
+			vfAssert("minus-membership", member(gm, v) == (inA && !inB))
+		}
+		// the stream and stream-set methods delegate to the slice functions
+		c05SameStream("stream-intersection", StreamFromArray(a).Intersection(StreamFromArray(b)), StreamForInterface.FromArray(ba).Intersection(StreamForInterface.FromArray(bb)))
+		c05SameStream("stream-minus", StreamFromArray(a).Minus(StreamFromArray(b)), StreamForInterface.FromArray(ba).Minus(StreamForInterface.FromArray(bb)))
+		c05SameStream("stream-distinct", StreamFromArray(a).Distinct(), StreamForInterface.FromArray(ba).Distinct())
+	})
+	if ok {
+		vfReach("end")
+	}
+}
